@@ -10,7 +10,9 @@ from uuid import UUID
 import polars as pl
 
 from pydiverse.common import (
+    Decimal,
     Dtype,
+    Float,
     Int,
     String,
 )
@@ -266,6 +268,18 @@ def rename_overwritten_cols(
     return df, name_in_df
 
 
+def unify_operand_types(pred: ColFn) -> ColFn:
+    # `join_where` cannot compare numeric columns of different type
+    if len(pred.args) == 2:
+        ltype, rtype = (types.without_const(arg.dtype()) for arg in pred.args)
+        if ltype != rtype and all(isinstance(t, Int | Float | Decimal) for t in (ltype, rtype)):
+            common = types.lca_type([ltype, rtype])
+            return ColFn(
+                pred.op, *(arg if types.without_const(arg.dtype()) == common else arg.cast(common) for arg in pred.args)
+            )
+    return pred
+
+
 def compile_ast(
     nd: AstNode,
 ) -> tuple[pl.LazyFrame, dict[UUID, str], list[UUID], list[UUID]]:
@@ -438,10 +452,14 @@ def compile_ast(
 
             joined = df.join_where(
                 right_df,
-                *(compile_col_expr(pred, name_in_df) for pred in predicates),
+                *(compile_col_expr(unify_operand_types(pred), name_in_df) for pred in predicates),
             ).with_columns(
                 # polars deletes the right column in equality predicates...
-                pl.col(name_in_df[left_col._uuid]).alias(name_in_df[right_col._uuid])
+                (
+                    pl.col(name_in_df[left_col._uuid])
+                    if left_col.dtype() == right_col.dtype()
+                    else pl.col(name_in_df[left_col._uuid]).cast(right_col.dtype().to_polars())
+                ).alias(name_in_df[right_col._uuid])
                 for left_col, right_col in zip(left_on, right_on, strict=True)
                 if isinstance(left_col, Col) and isinstance(right_col, Col)
             )
